@@ -563,6 +563,21 @@ func sliceElemAddr(s SV, idx *Term) SV {
 }
 
 func (e *Env) evalIndex(n *ast.IndexExpr) SV {
+	// old(m)[k]: the entry-state value of ghost map m at a key evaluated in the current state
+	if call, ok := n.X.(*ast.CallExpr); ok && len(call.Args) == 1 {
+		if id, ok := call.Fun.(*ast.Ident); ok && id.Name == "old" {
+			if g := e.ghostOf(call.Args[0]); g != nil && g.isMap {
+				if e.oldSt == nil {
+					efail("old() has no meaning here")
+				}
+				k := e.eval(n.Index, g.keyT)
+				if len(k.l) != len(leavesOf(g.keyT)) {
+					efail("ghost map key shape mismatch")
+				}
+				return e.oldSt.load(e.x, e.ghostMapEntry(g, k))
+			}
+		}
+	}
 	if g := e.ghostOf(n.X); g != nil && g.isMap {
 		k := e.eval(n.Index, g.keyT)
 		if len(k.l) != len(leavesOf(g.keyT)) {
